@@ -1,7 +1,7 @@
 (** C01 - Scheduled runs are exactly the configured cross product, filtered. *)
 From Coq Require Import List Bool.
 Import ListNotations.
-From RV Require Import Lib.Str Model.Settings Model.Compile Proofs.CompileP.
+From RV Require Import Lib.Str Model.Settings Model.Compile Proofs.CompileP Gen.GenFilterMatch Proofs.FilterMatchP.
 
 (** Whenever a configuration and selection compile, the result has no duplicates (runs of
     different experiments that agree in every configuration detail are one run) and contains
@@ -29,3 +29,17 @@ Theorem C01_selected_runs_pass_every_group :
     /\ tag_selected (sel_filters sel) (k_tag r) = true.
 Proof. exact selected_runs_pass_filters. Qed.
 Print Assumptions C01_selected_runs_pass_every_group.
+
+(** The filter semantics used above is the code's: the matches methods of the four filter classes, _RunFilter._match,
+    applies_to_bench and applies_to_tag are translated from configurator.py on every run (Gen/GenFilterMatch.v), and the
+    objects _RunFilter.__init__ builds are the documented ones (e:X, s:S, s:S:B, t:T).  For EVERY filter list, benchmark
+    and tag the model's selection equals what the translated methods return on those objects. *)
+Theorem C01_filters_are_the_code :
+  filter_constructors_as_documented = true
+  /\ (forall fl e s b,
+        bench_selected fl e s b
+        = gen_applies_to_bench (executor_objects (f_exec fl)) (suite_objects (f_suite fl))
+                               {| bv_executor := e; bv_suite := s; bv_name := b |})
+  /\ (forall fl t, tag_selected fl (SStr t) = gen_applies_to_tag (tag_objects (f_tag fl)) t).
+Proof. split; [reflexivity|]. split; [exact bench_selected_is_applies_to_bench | exact tag_selected_is_applies_to_tag]. Qed.
+Print Assumptions C01_filters_are_the_code.
